@@ -423,6 +423,9 @@ impl Monitor for C18 {
             obs.sample(J::obj(vec![("len", J::Int(len as i128)), ("bytes", J::s(format!("{:02x?}", &data[..len.min(16)]))), ("base64", J::s(ref_base64(&data[..len.min(16)])))]));
         }
     }
+    fn boot_mut(&mut self) -> Option<&mut Xstate> {
+        Some(&mut self.boot)
+    }
     fn describe(&mut self, idx: u64) -> String {
         format!("encode/decode of a {}-byte string (content class {}), all four codecs", idx % 301, (idx / 301) % NCLASS)
     }
